@@ -65,6 +65,7 @@ def run(cx):
             ob.require(bool(aw), f"shutdown/{nm}-awaited", f"{nm} future is not awaited", co.path)
         t = arg_origin(wi[0], 1, o)
         ob.require(term_has_call(t, "anemo::config::Config::shutdown_idle_timeout") and mentions_field(t, "config"), "shutdown/idle-bound", f"wait_idle bound is {show(t)[:80]}", co.path)
+        check_ms_getter(ob, prog, "anemo::config::Config::shutdown_idle_timeout", "shutdown_idle_timeout_ms")
         wb = cx.coroutine(f"{EP}::wait_idle")
         wo = Origins(wb)
         to = wb.calls_to("tokio::time::timeout::timeout")
